@@ -54,7 +54,22 @@ func (lt LicenseTypes) Less(i, j int) bool {
 	if lt[i].Filename > lt[j].Filename {
 		return false
 	}
-	return lt[i].EndLine < lt[j].EndLine
+	if lt[i].EndLine != lt[j].EndLine {
+		return lt[i].EndLine < lt[j].EndLine
+	}
+	// Results that tie so far (for example two variants of one license that
+	// match the same lines equally well) would otherwise stay in the order in
+	// which the tasks happened to deliver them.
+	if lt[i].StartLine != lt[j].StartLine {
+		return lt[i].StartLine < lt[j].StartLine
+	}
+	if lt[i].Name != lt[j].Name {
+		return lt[i].Name < lt[j].Name
+	}
+	if lt[i].Variant != lt[j].Variant {
+		return lt[i].Variant < lt[j].Variant
+	}
+	return lt[i].MatchType < lt[j].MatchType
 }
 
 // Classification is the license classification for a segment of a file.
